@@ -159,9 +159,15 @@ def jobs(prop, tier):
                    models=['string', 'libc', 'sstream', 'posix', 'containers'], solver=PORTFOLIO)
         J.append(Job('C15', 'key', 'C15_key.cpp', defs={'IDMAX': 4, 'ENV_NOLOG': None}, unwind=7, shape='K', timeout=900 if T else 250,
                      bounds='two registrations with arbitrary source (any/master), destination, PB, SB, ID length 0..4 and ID bytes', **BUS))
+        for nn in ((3, 16) if T else (16,)):
+            for (hs, nm) in ((12, 'sendcmdack'), (13, 'sendres'), (14, 'sendrescrc'), (8, 'recvresack')):
+                J.append(Job('C15', 'ans_%s_nn%d' % (nm, nn), 'C15_answer.cpp', defs={'NNMAX': nn, 'HSTATE': hs}, unwind=5, shape='S', timeout=3000 if T else 300,
+                             unwindset={'vp_main': 257, 'RecListener': nn + 8, 'related': nn + 8, 'relatedAnswer': nn + 8, 'setVec': nn + 8},
+                             bounds='one handler step from every state of answering phase "%s" related to an answer monitor state, telegram NN <= %d, answer NN <= %d' % (nm, nn, nn),
+                             **dict(BUS, solver=('minisat', 'kissat'))))
         # harness/C15_lookup.cpp (real setAnswer x2 + getAnswer on a partially constructed handler) is not registered: symex finishes
         # (35 k steps) but CBMC's propositional post-processing needs > 15 GB and no verdict within the cap, with tight unwinding
-        # and with fixed-size operator new alike (DESIGN 8.5)
+        # and with fixed-size operator new alike (DESIGN 8.5); re-measured after the translator fix of 10.1 with ONE registration: 9 GB, no verdict
     if prop == 'C18':
         M = ['string', 'libc', 'sstream', 'posix']
         for l in ((2, 3, 4, 5, 6) if T else (2, 3, 4)):
